@@ -28,7 +28,10 @@ RULE = ('pseudo-observation arrays X (n,2): samples of Clayton/Frank/Gumbel draw
         'dependence (tau in {-.5,-.8,-.9,-.95,-.98}; reflected Clayton, Frank and Gaussian-copula draws from harness '
         'samplers) in tie and search: Frank theta against the harness calibration and, by the Debye function, back to tau; NEAR-EQUAL '
         'data (distinct values of a column 1e-9..1e-12 apart, 1e-9-jittered clusters, 1e-18*rank far tails, n = 30000 '
-        'continuous) in tie and search: tau bit-equal to scipy kendalltau of the RAW columns and to the harness tau-b; an '
+        'continuous) in tie and search: tau bit-equal to scipy kendalltau of the RAW columns and to the harness tau-b; data FORMS '
+        '(Fortran order, strided view, read-only, object dtype, float32/float16/longdouble, list, DataFrame) against the '
+        'float64 C-ordered image of the same values, and every ROUTE to the deprecated alias (class, instance, concrete '
+        'families, Bivariate(copula_type=...)) against the module function; an '
         'ALIASING batch (8 calls on harness-sampled arrays covering all three families, all results kept and re-checked: '
         'unchanged, pairwise distinct objects, equal to a second call on the same X); and LARGE-n cases (n = 10000, '
         '12000, 20001 from harness-side samplers): _compute_empirical against the definition over all rows (1e-12) and '
@@ -262,6 +265,10 @@ def datasets(ctx, grid, stream, nfam, nsmall, nbad, sizes):
     for k, tau in enumerate(NEGATIVE_TAUS):           # strongly negative dependence: Frank's solver far from its start
         samp = NEGATIVE_SAMPLERS[rng.randrange(len(NEGATIVE_SAMPLERS))]
         out.append((f'negative-{samp}', negative_sample(samp, tau, rng.choice([150, 300, 600]), rng.randrange(2 ** 31))))
+    for spec in FORM_DATA[:3]:                         # float64 images of the float32 / float16 forms (see forms_tie)
+        Xf = own_sample(*spec)
+        out.append(('image-float32', np.asarray(Xf.astype(np.float32), dtype=np.float64)))
+        out.append(('image-float16', np.asarray(Xf.astype(np.float16), dtype=np.float64)))
     for kind, n, seed in NEAR_EQUAL:                   # distinct values of a column closer than 1e-8
         if n <= 400:
             out.append((f'nearequal-{kind}', near_equal_dataset(kind, n, rng.randrange(2 ** 31))))
@@ -530,7 +537,8 @@ def run(ctx, lean):
     names = ['corr:grid', 'corr:select', 'corr:calibration', 'corr:candidates', 'corr:empirical',
              'corr:candidate-curves', 'corr:decision', 'corr:alias']
     if lean is None:
-        for n in names + ['corr:rank-argmax-semantics', 'corr:empirical-large-n', 'corr:tau-raw-columns']:
+        for n in names + ['corr:rank-argmax-semantics', 'corr:empirical-large-n', 'corr:tau-raw-columns',
+                          'corr:data-forms', 'corr:alias-routes']:
             ctx.ob(n, False, 'tie', 'driver unavailable')
         return
     from copulas.utils import EPSILON
@@ -560,6 +568,8 @@ def run(ctx, lean):
         ctx.ob(n, n not in t.bad, 'tie', t.bad.get(n, 'ok'))
     large_n_tie(ctx, lean, grid)
     raw_tau_tie(ctx)
+    forms_tie(ctx)
+    routes_tie(ctx)
 
 
 # ----------------------------------------------------------------------------------- oracle on real code
@@ -1111,6 +1121,165 @@ def raw_tau_tie(ctx):
     ctx.ob('corr:tau-raw-columns', bad is None, 'tie', bad or 'ok')
 
 
+# ----------------------------------------------------------------------------------- data forms and alias routes
+FORM_DATA = (('clayton', 0.5, 800, 5101), ('gumbel', 0.5, 800, 5102), ('frank', 0.5, 800, 5103),
+             ('clayton-reflected', 0.4, 500, 5104), ('gumbel', 0.7, 600, 5105))
+# dtype forms: (name, numpy dtype, relative precision allowed on tau / theta)
+DTYPE_FORMS = (('float32', np.float32, 1e-6), ('float16', np.float16, 5e-3), ('longdouble', np.longdouble, 1e-12))
+
+
+def result_of(call):
+    try:
+        with warnings.catch_warnings():
+            warnings.simplefilter('ignore')
+            with np.errstate(all='ignore'):
+                r = call()
+        return ['ok', fam_of(r) or type(r).__name__, float(r.tau), float(r.theta)]
+    except Exception as e:  # noqa
+        return ['err', type(e).__name__, str(e)[:80]]
+
+
+def res_close(a, b, rel):
+    if a[0] != b[0] or a[1] != b[1]:
+        return False
+    if a[0] == 'err':
+        return True
+    if rel == 0.0:
+        return same(a[2], b[2]) and same(a[3], b[3])
+    return close(a[2], b[2], rel) and close(a[3], b[3], rel)
+
+
+def data_forms(X):
+    """-> [(name, object handed to select_copula, float64 image holding the same values, tolerance)]"""
+    import pandas as pd
+    n = len(X)
+    big = np.zeros((2 * n, 4))
+    big[::2, 1:3] = X
+    ro = X.copy()
+    ro.setflags(write=False)
+    out = [('fortran-order', np.asfortranarray(X), X, 0.0), ('strided-view', big[::2, 1:3], X, 0.0),
+           ('read-only', ro, X, 0.0), ('object-dtype', X.astype(object), X, 0.0),
+           ('list-of-lists', X.tolist(), X, 0.0), ('list-of-tuples', [tuple(r) for r in X.tolist()], X, 0.0),
+           ('DataFrame', pd.DataFrame(X, columns=['u', 'v']), X, 0.0)]
+    for name, dt, rel in DTYPE_FORMS:
+        Y = X.astype(dt)
+        out.append((name, Y, np.asarray(Y, dtype=np.float64), rel))
+    return out
+
+
+def forms_case(ctx, spec, report):
+    """the same pseudo-observations in another container / layout / dtype give the same family, tau and theta as the
+    float64 C-ordered array holding the same values (within the precision of the dtype); forms the unchanged code
+    rejects are counted, not judged."""
+    from copulas.bivariate import select_copula
+    X = np.ascontiguousarray(own_sample(*spec), dtype=np.float64)
+    refs = {}
+    checks = 0
+    for name, obj, image, rel in data_forms(X):
+        key = image.tobytes()
+        if key not in refs:
+            refs[key] = result_of(lambda: select_copula(image.copy()))
+        ref = refs[key]
+        got = result_of(lambda: select_copula(obj))
+        checks += 1
+        if got[0] == 'err' and ref[0] == 'ok' and got[1] in ('TypeError', 'KeyError', 'IndexError', 'AttributeError', 'InvalidIndexError') \
+                and name in ('list-of-lists', 'list-of-tuples', 'DataFrame'):
+            ctx.count('form-rejected:' + name)          # not an (n,2) ndarray: outside the property's quantifier
+            continue
+        ctx.count('form:' + name)
+        if not res_close(got, ref, rel):
+            report(spec, name, got, ref, rel)
+    return checks
+
+
+def forms_oracle(ctx):
+    def report(spec, name, got, ref, rel):
+        ctx.fail_input('copulas.bivariate.select_copula',
+                       {'sampler': 'harness own_sample', 'family': spec[0], 'tau': spec[1], 'n': spec[2], 'seed': spec[3],
+                        'form': name},
+                       {'this_form': got, 'float64_C_order_same_values': ref, 'relative_tolerance': rel},
+                       'family, tau and theta do not depend on the layout / container / dtype of the (n,2) data (within the '
+                       'precision of the dtype)', 'select_copula:depends-on-data-dtype')
+    return sum(forms_case(ctx, spec, report) for spec in FORM_DATA)
+
+
+def forms_tie(ctx):
+    bad = []
+
+    def report(spec, name, got, ref, rel):
+        bad.append({'data': list(spec), 'form': name, 'real(form)': got, 'real(float64 image)': ref, 'rtol': rel})
+    for spec in FORM_DATA[:3]:
+        ctx.case(('forms',) + tuple(spec), nontrivial=True)
+        forms_case(ctx, spec, report)
+    ctx.ob('corr:data-forms', not bad, 'tie', bad[0] if bad else 'ok')
+
+
+def alias_routes():
+    """every way of reaching the deprecated alias -> callable(X)"""
+    from copulas.bivariate import Bivariate, CopulaTypes
+    cl = classes()
+    routes = [('Bivariate.select_copula', lambda X: Bivariate.select_copula(X)),
+              ('Bivariate().select_copula', lambda X: Bivariate().select_copula(X))]
+    for k, c in cl.items():
+        routes.append((f'{c.__name__}.select_copula', (lambda c: lambda X: c.select_copula(X))(c)))
+        routes.append((f'{c.__name__}().select_copula', (lambda c: lambda X: c().select_copula(X))(c)))
+        routes.append((f"Bivariate(copula_type='{k}').select_copula",
+                       (lambda k: lambda X: Bivariate(copula_type=k).select_copula(X))(k)))
+        routes.append((f'Bivariate(copula_type=CopulaTypes.{k.upper()}).select_copula',
+                       (lambda k: lambda X: Bivariate(copula_type=CopulaTypes[k.upper()]).select_copula(X))(k)))
+    try:
+        from copulas.bivariate.independence import Independence
+        routes.append(('Independence.select_copula', lambda X: Independence.select_copula(X)))
+    except Exception:  # noqa
+        pass
+    return routes
+
+
+def routes_case(ctx, spec, report):
+    from copulas.bivariate import select_copula
+    X = own_sample(*spec)
+    ref = result_of(lambda: select_copula(X.copy()))
+    checks = 0
+    for name, call in alias_routes():
+        with warnings.catch_warnings(record=True) as w:
+            warnings.simplefilter('always')
+            try:
+                with np.errstate(all='ignore'):
+                    r = call(X.copy())
+                got = ['ok', fam_of(r) or type(r).__name__, float(r.tau), float(r.theta)]
+            except Exception as e:  # noqa
+                got = ['err', type(e).__name__, str(e)[:80]]
+            depr = any(issubclass(x.category, DeprecationWarning) for x in w)
+        checks += 1
+        ctx.count('alias-route')
+        if not (res_close(got, ref, 0.0) and depr):
+            report(spec, name, got, ref, depr)
+    return checks
+
+
+def routes_oracle(ctx):
+    def report(spec, name, got, ref, depr):
+        ctx.fail_input('Bivariate.select_copula',
+                       {'sampler': 'harness own_sample', 'family': spec[0], 'tau': spec[1], 'n': spec[2], 'seed': spec[3],
+                        'route': name},
+                       {'this_route': got, 'copulas.bivariate.select_copula': ref, 'DeprecationWarning': depr},
+                       'every route to the deprecated alias returns what copulas.bivariate.select_copula(X) returns and '
+                       'warns DeprecationWarning', 'Bivariate.select_copula:alias-route-differs')
+    return sum(routes_case(ctx, spec, report) for spec in FORM_DATA[:4])
+
+
+def routes_tie(ctx):
+    bad = []
+
+    def report(spec, name, got, ref, depr):
+        bad.append({'data': list(spec), 'route': name, 'route returns': got, 'module function': ref,
+                    'DeprecationWarning': depr})
+    for spec in FORM_DATA[:4]:
+        ctx.case(('routes',) + tuple(spec), nontrivial=True)
+        routes_case(ctx, spec, report)
+    ctx.ob('corr:alias-routes', not bad, 'tie', bad[0] if bad else 'ok')
+
+
 RECOVERY_TAUS = (0.3, 0.5, 0.7)
 RECOVERY_N = 3000
 RECOVERY_SEEDS = 10
@@ -1143,6 +1312,8 @@ def search(ctx, deep):
     checks += large_n_oracle(ctx)
     checks += negative_tau_oracle(ctx)
     checks += raw_tau_oracle(ctx)
+    checks += forms_oracle(ctx)
+    checks += routes_oracle(ctx)
     cells = {}
     if deep:
         rng = ctx.rng('recovery')
@@ -1174,6 +1345,14 @@ def replay(ctx, payload):
     if cls == 'select_copula:result-aliased-across-calls' and 'batch' in inp:
         aliasing_oracle(ctx, tuple(tuple(b) for b in inp['batch']))
         return any(f['class'] == cls for f in ctx.failing[before:])
+    if cls in ('select_copula:depends-on-data-dtype', 'Bivariate.select_copula:alias-route-differs') and 'seed' in inp:
+        spec = (inp['family'], inp['tau'], inp['n'], inp['seed'])
+        hit = []
+        if cls.startswith('select_copula'):
+            forms_case(ctx, spec, lambda sp, name, *a: hit.append(name))
+            return inp.get('form') in hit
+        routes_case(ctx, spec, lambda sp, name, *a: hit.append(name))
+        return inp.get('route') in hit
     if cls == 'select_copula:tau-not-kendall-of-raw-columns' and 'seed' in inp:
         raw_tau_case(ctx, (inp['dataset'].split(':', 1)[1], inp['n'], inp['seed']))
         return any(f['class'] == cls for f in ctx.failing[before:])
